@@ -16,6 +16,22 @@ HARD_ZONES = [
 ]
 
 
+def uni(lo, hi):
+    """integers in [lo, hi] for BIG ranges.
+
+    Hypothesis' st.integers() draws mostly short bit-lengths for ranges above 2**24, i.e. values
+    clustered around 0 (or the bound nearest to 0).  Two thirds of the draws here are (near-)uniform,
+    built from 20-bit limbs; one third keeps the small-value bias (boundaries near zero matter too).
+    """
+    lo, hi = int(lo), int(hi)
+    span = hi - lo
+    if span < 2**24:
+        return st.integers(lo, hi)
+    k = (span.bit_length() + 19) // 20
+    limbs = st.tuples(*([st.integers(0, 2**20 - 1)] * k)).map(lambda t: lo + sum(v << (20 * i) for i, v in enumerate(t)) % (span + 1))
+    return st.one_of(limbs, limbs, st.integers(lo, hi))
+
+
 def zones():
     allz = [z for z in T.all_zones()]
     return st.one_of(st.sampled_from(HARD_ZONES), st.sampled_from(allz))
@@ -53,11 +69,11 @@ def instant_near_transition(draw, zone):
     elif kind == 4:
         d = draw(st.sampled_from([-g * US, g * US, -g * US - 1, g * US - 1, -g * US + 1, g * US + 1]))
     elif kind == 5:
-        d = draw(st.integers(-g * US, g * US))
+        d = draw(uni(-g * US, g * US))
     elif kind == 6:
-        d = draw(st.integers(-2 * g * US, 2 * g * US))
+        d = draw(uni(-2 * g * US, 2 * g * US))
     elif kind == 7:
-        d = draw(st.integers(-86400 * US, 86400 * US))
+        d = draw(uni(-86400 * US, 86400 * US))
     elif kind == 8:
         d = draw(st.integers(-g, g)) * US
     else:
@@ -67,9 +83,9 @@ def instant_near_transition(draw, zone):
 
 def uniform_instant():
     return st.one_of(
-        st.integers(LO_U, HI_U),
-        st.integers(-2 * 10**15, 4 * 10**15),            # ~1906..2096
-        st.builds(lambda s, u: s * US + u, st.integers(LO_U // US + 1, HI_U // US - 1), st.sampled_from([0, 1, 999999])),
+        uni(LO_U, HI_U),
+        uni(-2 * 10**15, 4 * 10**15),            # ~1906..2096
+        st.builds(lambda s, u: s * US + u, uni(LO_U // US + 1, HI_U // US - 1), st.sampled_from([0, 1, 999999])),
     )
 
 
@@ -88,7 +104,7 @@ def wall_near_transition(draw, zone):
     """wall-clock value (us on the wall clock) on/around the edges of a gap or overlap of zone"""
     tr = T.transitions(zone)
     if not tr:
-        return draw(st.integers(LO_U, HI_U))
+        return draw(uni(LO_U, HI_U))
     t, a, b = tr[draw(st.integers(0, len(tr) - 1))]
     lo = (t + min(a, b)) * US       # first skipped / first repeated wall value
     hi = (t + max(a, b)) * US       # first wall value after the gap / overlap
@@ -115,7 +131,7 @@ def wall_near_transition(draw, zone):
     elif k == 10:
         w = draw(st.sampled_from([lo - span, lo - span - 1, hi + span, hi + span - 1, lo - US, hi + US]))
     else:
-        w = draw(st.integers(lo - 86400 * US, hi + 86400 * US))
+        w = draw(uni(lo - 86400 * US, hi + 86400 * US))
     return clamp_u(w)
 
 
